@@ -90,6 +90,7 @@ Verdict(e) ==
                                IF "radix" \in DOMAIN e THEN e.radix ELSE 10,
                                IF "utf8" \in DOMAIN e THEN e.utf8 ELSE TRUE, e.r)
     [] op = "fmt" /\ e.kind = "debug_alt" -> DebugAltOK(WArg(e.a), e.r)
+    [] op = "fmt" /\ e.kind = "debug" -> DebugOK(WArg(e.a), e.r)
     [] op = "fmt" -> FormatEventOK(e, IF "N" \in DOMAIN e THEN Arg(e.a) ELSE DZero, WArg(e.a), cfg)
     [] op = "from_float" -> FromFloatOK(ZOf(e.bits).m, e.w, e.r)
     [] op = "to_float" -> ToFloatOK(Arg(e.a), e.r)
